@@ -49,7 +49,7 @@ Proof.
       split; [shape2 lb lk Hda Hnd Hlv; nodup_tac|]. split; [shape2 lb lk Hda Hnd Hlv; lives_tac|].
       split; [intros Hv; congruence|]. cbn [ml_blk ml_k]. split.
       - apply (blk_coh_frame m m1); [exact F1| |exact Hbc]. intros id Hid.
-        shape2 lb lk Hda Hnd Hlv; cbn [In] in Hid; hg_chain; eqb_solve; reflexivity.
+        shape2 lb lk Hda Hnd Hlv; cbn [In] in Hid; split_in Hid; hg_chain; eqb_fast; reflexivity.
       - unfold k_coh in *. shape2 lb lk Hda Hnd Hlv; first [exact Hkc|live_tac]. }
   set (new_offset := index_offset ib idx) in *.
   remember (match it_b it with Some _ => it_block_offset it =? new_offset | None => false end) as reuse eqn:Er.
@@ -63,7 +63,7 @@ Proof.
     destruct (live m bk) as [oldk|] eqn:Elk; [|destruct Hbk; congruence].
     destruct (bkey_sync_spec pol m1 bk b bi oldk) as (m6 & bk1 & c6 & -> & S6 & Hc6).
     { shape da lk Hda Hnd Hlv; live_tac. }
-    { lia. }
+    { lia_nd. }
     destruct S6 as (F6 & N6 & I6 & D6 & HH6). cbn [of_opt mbind].
     inversion Hf; subst it' ok. exists m6, (mkml ik1 (Some (bk1, da, sz)) lk). split; [reflexivity|].
     split; [shape da lk Hda Hnd Hlv; frame_tac|]. split; [shape da lk Hda Hnd Hlv; fresh_tac|].
@@ -82,7 +82,7 @@ Proof.
     destruct (alloc m3 []) as [m4 nbk] eqn:Ea. destruct (alloc_spec _ _ _ _ Ea) as (Enbk & N4 & F4 & HH4).
     cbn [mbind].
     destruct (block_seek nb (bs_invalid nb) key) as [bi| | |] eqn:Es; try discriminate. cbn [of_res mbind].
-    destruct (bkey_sync_spec pol m4 nbk nb bi []) as (m6 & nbk1 & c6 & -> & S6 & Hc6); [live_tac|lia|].
+    destruct (bkey_sync_spec pol m4 nbk nb bi []) as (m6 & nbk1 & c6 & -> & S6 & Hc6); [live_tac|lia_nd|].
     destruct S6 as (F6 & N6 & I6 & D6 & HH6). cbn [of_opt mbind].
     inversion Hf; subst it' ok. exists m6, (mkml ik1 (Some (nbk1, nda, len nraw)) lk). split; [reflexivity|].
     destruct Hcase as [((nfo & -> & Hnraw) & ->)|(-> & N3 & HH3)].
